@@ -414,7 +414,9 @@ func (fx *FnCtx) applyContract(st *State, fr *callFrame, site ssa.Instruction, k
 	fx.sol.Assert(tCmp(">=", nt, st.allocTop))
 	st.allocTop = nt
 	// frame
-	if con.Pure || (con.HasFrame && len(con.Assigns) == 0) {
+	if con.Iterates != "" {
+		fx.iterateCallback(st, con, env, short)
+	} else if con.Pure || (con.HasFrame && len(con.Assigns) == 0) {
 		// nothing changes
 	} else if !con.HasFrame {
 		if fx.con != nil && fx.con.HasFrame {
@@ -519,6 +521,9 @@ func (fx *FnCtx) checkFrameTarget(st *State, t *assignTarget, callee string) {
 	var alts []string
 	if t.ref != "" {
 		alts = append(alts, tCmp(">=", t.ref, st.top0))
+		if t.kind == "mem" {
+			alts = append(alts, tEq(t.ref, "0"))
+		}
 	}
 	for _, o := range fx.frameTgts {
 		if o.kind == "all" {
@@ -558,7 +563,8 @@ func (fx *FnCtx) havocTarget(st *State, t *assignTarget) {
 			key := "M|" + typeKey(t.elemT) + "|" + lf.path
 			sort := heapSort(key, lf.sort)
 			m := st.heapGet(key, sort)
-			st.heapSet(key, sort, tSto(m, t.ref, fx.fresh("hvrow", "(Array Int "+lf.sort+")")))
+			// the backing array of a nil slice (base 0) does not exist: nothing to havoc there
+			st.heapSet(key, sort, tSto(m, t.ref, tIte(tEq(t.ref, "0"), tSel(m, "0"), fx.fresh("hvrow", "(Array Int "+lf.sort+")"))))
 		}
 	case "map":
 		pk, nk := mapKeys(t.mapT)
@@ -618,4 +624,66 @@ func (fx *FnCtx) goStmt(st *State, fr *callFrame, x *ssa.Go) {
 		}
 		fx.atCalls(st, key, env)
 	}
+}
+
+// iterateCallback models a callee that invokes a closure argument zero or more times (stun.Message.ForEach):
+// the closure's precondition must hold now, is re-established by each invocation (obligation of the closure's own
+// verification, contract marked `iterated`), and therefore holds afterwards; what the closure assigns is havocked.
+func (fx *FnCtx) iterateCallback(st *State, con *Contract, env *SpecEnv, callee string) {
+	cb := env.vars[con.Iterates]
+	if cb == nil || cb.Clo == nil {
+		fx.unsupported("iterates: callback argument " + con.Iterates + " of " + callee + " is not a known closure")
+		st.havocAllKeepLocks()
+		return
+	}
+	cfn := fx.eng.Funcs[cb.Clo.fn]
+	ccon := fx.eng.CS.Funcs[cb.Clo.fn]
+	if cfn == nil || ccon == nil || !ccon.Iterated {
+		fx.unsupported("iterates: closure " + shortFn(cb.Clo.fn) + " needs a contract marked `iterated`")
+		st.havocAllKeepLocks()
+		return
+	}
+	mk := func(s *State, old *State) *SpecEnv {
+		e := &SpecEnv{fx: fx, st: s, old: old, vars: map[string]*Val{}, fn: cfn}
+		p := cfn
+		for p.Parent() != nil {
+			p = p.Parent()
+		}
+		if p.Pkg != nil {
+			e.pkg = p.Pkg.Pkg
+		}
+		for _, prm := range cfn.Params {
+			v := s.freshVal(prm.Type(), "cbarg_"+prm.Name())
+			if _, isPtr := prm.Type().Underlying().(*types.Pointer); isPtr {
+				fx.sol.Assert(tNot(tEq(v.S, "0")))
+			}
+			e.vars[prm.Name()] = v
+		}
+		for i, fv := range cfn.FreeVars {
+			if i < len(cb.Clo.bindings) {
+				e.freeVars = append(e.freeVars, freeVarBinding{fv.Name(), cb.Clo.bindings[i], fv.Type()})
+			}
+		}
+		return e
+	}
+	pre := st.snapshot()
+	e1 := mk(st, pre)
+	for _, r := range ccon.Requires {
+		fx.oblige(st, fx.oname("pre", "iterated "+shortFn(cb.Clo.fn)+"]"+r.Tag()), "pre", r, e1.evalBool(r.E))
+	}
+	if !ccon.HasFrame {
+		st.havocAllKeepLocks()
+	} else {
+		for i, a := range ccon.Assigns {
+			for _, t := range e1.targets(a, ccon.AssignSrc[i]) {
+				fx.checkFrameTarget(st, t, callee)
+				fx.havocTarget(st, t)
+			}
+		}
+	}
+	e2 := mk(st, pre)
+	for _, r := range ccon.Requires {
+		fx.sol.Assert(e2.evalBool(r.E))
+	}
+	fx.note("callback " + shortFn(cb.Clo.fn) + " invoked zero or more times by " + callee + " (its precondition is the loop invariant)")
 }
